@@ -180,6 +180,19 @@ package badger
 //@ loop 0 invariant [complete] forall key string :: itvisited(it, key) && kvlive(key) && store.eligibleHost(kvget("store.Node", key), kind, seenSince) ==> store.inNodes(r, kvget("store.Node", key))
 //@ loop 0 invariant [distinct] store.distinctIDs(r)
 
+// GetAccountNodes: walks the wallet links; the node id is cut out of the key it was stored under
+//@ func (*badgerStore).GetAccountNodes
+//@ property C12 C13
+//@ requires dbInv(s)
+//@ ensures [db-inv] {C12 C13} dbInv(s)
+//@ implements store.AccountStore.GetAccountNodes
+//@ ensures [read-only] {C13} txncount() <= 1
+
+//@ func (*badgerStore).GetAccountNodes$1
+//@ loop 0 invariant [db]       dbInvK()
+//@ loop 0 invariant [members]  forall p int :: off(r) <= p && p < off(r) + len(r) ==> kvlive(accountKey(elems(r)[p])) && kvget("store.Account", accountKey(elems(r)[p])) == account
+//@ loop 0 invariant [complete] forall k store.NodeID :: itvisited(it, accountKey(k)) && kvlive(accountKey(k)) && kvget("store.Account", accountKey(k)) == account ==> store.hasID(r, k)
+
 // ---- opening and migrating (C13) ----------------------------------------------------------------
 // The format version lives under the key "vip:version". kvunchanged(k): everything stored under k is as at entry;
 // kvallsame(): the whole database is as at entry.
@@ -192,6 +205,21 @@ package badger
 //@ ensures [reopening-a-current-database-changes-nothing] old(dbVersionIs(m.LatestVersion)) ==> kvallsame()
 //@ ensures [a-failed-migration-changes-nothing] err != nil ==> kvallsame()
 //@ ensures [one-transaction] txncount() <= 1
+
+// MigrateLatest / Open: the same two statements for the migration table the driver ships with and for opening a store.
+// Opening does nothing to the database besides that one migration transaction.
+//@ func MigrateLatest
+//@ property C13
+//@ ensures [reopening-a-current-database-changes-nothing] old(dbVersionIs(2)) ==> kvallsame()
+//@ ensures [a-failed-migration-changes-nothing] err != nil ==> kvallsame()
+//@ ensures [one-transaction] txncount() <= 1
+
+//@ func Open
+//@ property C13
+//@ ensures [reopening-a-current-database-changes-nothing] old(dbVersionIs(2)) ==> kvallsame()
+//@ ensures [a-failed-open-changes-nothing] err != nil ==> kvallsame()
+//@ ensures [one-transaction] txncount() <= 1
+//@ ensures [opened] err == nil ==> result != nil && result.nonceExpire == store.ExpireNonce
 
 // step 0 -> 1: only stamps the version
 //@ func init$1
